@@ -856,6 +856,11 @@ func execDraw(line string) (res h.Result) {
 					}
 					sort.Slice(ks, func(a, b int) bool { return ks[a][1] < ks[b][1] || (ks[a][1] == ks[b][1] && ks[a][0] < ks[b][0]) })
 					for _, k := range ks {
+						if inr(k[0], k[1]) && !sh.locked[k] && k[0] > 0 && !heads(k[1], false)[k[0]] && !heads(k[1], true)[k[0]] {
+							// the unlocked cell is the right half of a wide rune: it is repainted by repainting that rune — judge
+							// the cell that shows it (unless that one is locked itself or layout-ambiguous)
+							k = [2]int{k[0] - 1, k[1]}
+						}
 						if !inr(k[0], k[1]) || sh.locked[k] || !heads(k[1], false)[k[0]] || !heads(k[1], true)[k[0]] {
 							continue
 						}
